@@ -14,7 +14,7 @@ for dn in $DIRS; do
 		suite_fail=$(sed -n '/== suite with patch/,/== demo with patch/p' $D/confirm$k.log | grep "test result" | grep -vc " 0 failed")
 		with=$(grep -A12 "== demo with patch" $D/confirm$k.log | grep "test result" | head -1 | grep -c "FAILED")
 		without=$(grep -A12 "== demo without patch" $D/confirm$k.log | grep "test result" | head -1 | grep -c "ok\.")
-		SR=/tmp/sr2 /verif/tools/seedrun_iso.sh $D/out/$k/patch.diff $prop ${REL[$prop]} > $D/run$k.log 2>&1
+		SR=${SR:-/tmp/sr2} /verif/tools/seedrun_iso.sh $D/out/$k/patch.diff ${ALLCHECKS:-$prop ${REL[$prop]}} > $D/run$k.log 2>&1
 		caught=$(grep -E "^--- C[0-9]+ violations=[1-9]" $D/run$k.log | sed 's/^--- \(C[0-9]*\).*/\1/' | tr '\n' ',')
 		missed=$(grep -E "^--- C[0-9]+ violations=0" $D/run$k.log | sed 's/^--- \(C[0-9]*\).*/\1/' | tr '\n' ',')
 		echo "$dn/$k confirm[suite_fail=$suite_fail demo_with_patch_fails=$with demo_without_passes=$without] caught=${caught:-none} notcaught=${missed:-none} $(grep -q 'build failed\|does not apply' $D/run$k.log && echo BUILD/APPLY-PROBLEM)"
